@@ -843,7 +843,7 @@ class map_async(Stream):
                 results = self._emit(result, metadata=metadata)
                 if results:
                     await asyncio.gather(*results)
-            self._release_refs(metadata)
+                self._release_refs(metadata)
 
     async def _wait_for_work_slot(self):
         while self.work_queue.full():
